@@ -1104,7 +1104,11 @@ func runExc(t *zsim.Tape, cfg *hlib.Config, prop string) *hlib.Outcome {
 	expChain := exp.Raise.chain
 	sc.Chain = fmt.Sprint(expChain)
 	sc.GotChain = fmt.Sprint(gotChain)
-	if sym := compareChain(gotChain, expChain); sym != "" {
+	sym := compareChain(gotChain, expChain)
+	if sym == "" {
+		sym = sourceTextSymptom(gotChain, sc.Modules)
+	}
+	if sym != "" {
 		after := "first-fault"
 		if exp.Handled > 0 {
 			after = "after-handled"
@@ -1181,29 +1185,32 @@ type chainEntry struct {
 	Module string
 	Line   int
 	Native bool
+	Text   string // quoted source line, when the report has one
 }
 
 // parseChain extracts (module, line) entries, outermost first, from exec.DisplayError text.
 func parseChain(e string) []chainEntry {
 	var out []chainEntry
-	for _, ln := range strings.Split(e, "\n") {
-		ln = strings.TrimSpace(ln)
+	lines := strings.Split(e, "\n")
+	for li, raw := range lines {
+		ln := strings.TrimSpace(raw)
 		var line int
 		var mod string
+		n := len(out)
 		switch {
 		case strings.HasPrefix(ln, "在主模块中，位于第"):
 			fmt.Sscanf(strings.TrimPrefix(ln, "在主模块中，位于第"), "%d", &line)
-			out = append(out, chainEntry{"主", line, false})
+			out = append(out, chainEntry{"主", line, false, ""})
 		case strings.HasPrefix(ln, "来自主模块，第"):
 			fmt.Sscanf(strings.TrimPrefix(ln, "来自主模块，第"), "%d", &line)
-			out = append(out, chainEntry{"主", line, false})
+			out = append(out, chainEntry{"主", line, false, ""})
 		case strings.HasPrefix(ln, "在模块“"):
 			rest := strings.TrimPrefix(ln, "在模块“")
 			i := strings.Index(rest, "”")
 			if i >= 0 {
 				mod = rest[:i]
 				fmt.Sscanf(strings.TrimPrefix(rest[i:], "”中，位于第"), "%d", &line)
-				out = append(out, chainEntry{mod, line, strings.HasPrefix(mod, "@")})
+				out = append(out, chainEntry{mod, line, strings.HasPrefix(mod, "@"), ""})
 			}
 		case strings.HasPrefix(ln, "来自“"):
 			rest := strings.TrimPrefix(ln, "来自“")
@@ -1211,13 +1218,38 @@ func parseChain(e string) []chainEntry {
 			if i >= 0 {
 				mod = rest[:i]
 				fmt.Sscanf(strings.TrimPrefix(rest[i:], "”模块，第"), "%d", &line)
-				out = append(out, chainEntry{mod, line, strings.HasPrefix(mod, "@")})
+				out = append(out, chainEntry{mod, line, strings.HasPrefix(mod, "@"), ""})
 			}
 		case strings.HasPrefix(ln, "在 <内置模块>"), strings.HasPrefix(ln, "来自 <内置模块>"):
-			out = append(out, chainEntry{"<native>", 0, true})
+			out = append(out, chainEntry{"<native>", 0, true, ""})
+		}
+		if len(out) > n && li+1 < len(lines) && strings.HasPrefix(lines[li+1], "    ") {
+			out[len(out)-1].Text = strings.TrimSpace(lines[li+1])
 		}
 	}
 	return out
+}
+
+// sourceTextSymptom checks the quoted source line of every entry that has one against the
+// physical line of that module's source.
+func sourceTextSymptom(got []chainEntry, mods map[string]string) string {
+	for _, e := range got {
+		if e.Native || e.Text == "" || e.Text == "[ --内部程序-- ]" {
+			continue
+		}
+		src, ok := mods[e.Module]
+		if !ok {
+			continue
+		}
+		ls := strings.Split(strings.ReplaceAll(src, "\r\n", "\n"), "\n")
+		if e.Line < 1 || e.Line > len(ls) {
+			return "source-text-line-out-of-range"
+		}
+		if strings.TrimSpace(ls[e.Line-1]) != e.Text {
+			return "wrong-source-text"
+		}
+	}
+	return ""
 }
 
 // compareChain compares the reported chain with the active frames. Library/native frames at
